@@ -328,6 +328,50 @@ func isoCampaign(e *Env, prop string) {
 			}
 			os.Remove(out)
 		}
+		// the directory changes (another game under the same name: new TITLE_ID, a file added, one
+		// resized) and is opened again in the same processes: the new image describes the new tree
+		if c.Kind != "bigfile" && i%e.Pick(3, 2) == 2 {
+			pre := "/***DVD***"
+			if c.PS3 {
+				pre = "/***PS3***"
+			}
+			netFetchImage(addr, pre+rel, e.Watchdog, 512<<20) // make sure the server has seen the old tree
+			if c.PS3 {
+				old := readTitleID(c.Root)
+				nid := "NPUB" + fmt.Sprintf("%05d", (i*7919)%100000)
+				if nid == old {
+					nid = "NPUA00001"
+				}
+				must(os.WriteFile(filepath.Join(c.Root, "PS3_GAME", "PARAM.SFO"), makeSFO(map[string]string{"TITLE": "replaced", "TITLE_ID": nid}, []string{"TITLE_ID", "TITLE"}), 0o644))
+			}
+			must(os.WriteFile(filepath.Join(c.Root, "zz-added-later.bin"), tree.Content(int64(i), 5000), 0o644))
+			for _, en := range ents {
+				if !en.dir && en.size > 0 && !strings.Contains(en.rel, "PARAM.SFO") {
+					must(os.WriteFile(en.os, tree.Content(int64(i)+1, en.size+2049), 0o644))
+					break
+				}
+			}
+			ents2, err := walkSource(c.Root)
+			must(err)
+			c2 := c
+			c2.Feature = "changed-then-reopened"
+			if v2, _, err, perr := libOpenImage(parent, rel, c.PS3, 0); err == nil && perr == nil {
+				st2, _ := v2.Stat()
+				img2, err, perr := readAllSeq(v2, 65536, st2.Size()+1<<20)
+				v2.Close()
+				if err == nil && perr == nil {
+					judge(c2, "library, after the tree changed", memSource(img2), int64(len(img2)), st2.Size(), ents2)
+				}
+			} else {
+				run.Violate("creation-failed", "changed-then-reopened", fmt.Sprintf("[%s] image of the changed tree could not be created: err=%v panic=%v", c.Name, err, perr), map[string]any{"case": c})
+			}
+			if nimg, nann, err := netFetchImage(addr, pre+rel, e.Watchdog, 512<<20); err == nil {
+				judge(c2, "network, after the tree changed", memSource(nimg), int64(len(nimg)), nann, ents2)
+			} else {
+				run.Violate("network-fetch-failed", "changed-then-reopened", fmt.Sprintf("[%s] %v", c.Name, err), map[string]any{"case": c})
+			}
+			run.Sig("%s changed-then-reopened", sig)
+		}
 		if i%max(1, len(cases)/6) == 0 {
 			run.Sample(map[string]any{"case": c, "image_size": len(img), "source_entries": len(ents)})
 		}
